@@ -774,7 +774,7 @@ def proofs():
                     "cmd": "tlapm --threads 8 --cleanfp %s.tla" % mod, "tail": p.stdout[-400:]})
         log("[proofs] %s: %s (%d obligations)" % (mod, "all proved" if m else "FAILED", res[-1]["obligations"]))
         bad += 0 if m else 1
-    with open(os.path.join(core.VERIF, "evidence", "proofs.json"), "w") as f:
+    with open(os.path.join(core.VERIF, "reports", "proofs.json"), "w") as f:
         json.dump(res, f, indent=1)
     return 2 if bad else 0
 
@@ -1085,7 +1085,7 @@ def selftest(ids, seed):
             if not run.selftest_results:
                 bad += 1
                 log("SELFTEST FAILED %s: no stage exercised" % pid)
-    with open(os.path.join(core.VERIF, "evidence", "selftest.json"), "w") as f:
+    with open(os.path.join(core.VERIF, "reports", "selftest.json"), "w") as f:
         json.dump(summary, f, indent=1)
     log("[selftest] %s" % ("all corruptions rejected" if not bad else "%d failure(s)" % bad))
     return 2 if bad else 0
